@@ -32,9 +32,13 @@ TEXTS = [
     "a = (1, 2",
     "OBJECT = o\n k = 1\nEND_GROUP = o\n",
     "a = 1 <m>\nb = {1, 2}\nt = 2001-01-01T12:00:00\nEND\n",
+    # spellings that are a value in some dialects only
+    "x = 16#-7F#\ny = -16#7F#\nz = 3#12#\n",
+    "t = 12:00+01:30\nu = 23:59:60\nv = a+b\nw = +.5\n",
 ]
 
-DEC_CALLS = [["simple", "1"], ["simple", "1.5"], ["simple", "2001-001"], ["simple", "12:00:60"],
+DEC_CALLS = [["simple", "16#-7F#"], ["simple", "-16#7F#"], ["simple", "3#12#"], ["simple", "23:59:60"],
+             ["simple", "1"], ["simple", "1.5"], ["simple", "2001-001"], ["simple", "12:00:60"],
              ["simple", '"q  r"'], ["simple", "NULL"], ["simple", "abc"], ["simple", "16#FF#"],
              ["simple", "a b"], ["datetime", "junk"], ["quantity", "1", "m"],
              ["simple", "12:00+01"], ["simple", "END"]]
@@ -219,18 +223,19 @@ def alphabet(kind):
 
 
 def interfere():
-    """Activity on OTHER instances: must never influence ours."""
+    """Activity on OTHER instances (of every dialect, over the whole alphabet):
+    it must never influence ours."""
     for name in impl.DIALECTS:
         p = impl.make_parser(name)
-        for t in (TEXTS[2], TEXTS[3], TEXTS[0]):
+        for t in TEXTS:
             outcome_parse(p, t)
         d = impl.make_grammar_decoder(name)[1]
-        for c in DEC_CALLS[:5]:
+        for c in DEC_CALLS:
             outcome_decode(d, c)
     for name in impl.ENCODERS:
         e = impl.make_encoder(name)
         e.add_quantity_cls(Length, "value", "units")
-        for mk in modules()[:6]:
+        for mk in modules():
             outcome_encode(e, mk)
     return ("ok", "interference")
 
